@@ -8,12 +8,14 @@ import (
 
 	"verifharness/hx"
 
+	"github.com/attestantio/go-eth2-client/api"
 	apiv1 "github.com/attestantio/go-eth2-client/api/v1"
 	"github.com/attestantio/go-eth2-client/spec/phase0"
 	vouchmock "github.com/attestantio/vouch/mock"
 	mockaccountmanager "github.com/attestantio/vouch/services/accountmanager/mock"
 	"github.com/attestantio/vouch/services/attestationaggregator"
 	"github.com/attestantio/vouch/services/attester"
+	"github.com/attestantio/vouch/services/beaconcommitteesubscriber"
 	standardsubscriber "github.com/attestantio/vouch/services/beaconcommitteesubscriber/standard"
 	"github.com/attestantio/vouch/services/cache"
 	mockcache "github.com/attestantio/vouch/services/cache/mock"
@@ -49,6 +51,39 @@ type c14rWorld struct {
 	*c03World
 	subs []c14rSub
 	aggs []c14rAgg
+	// slow parts: the beacon node takes subDelay to answer the subscriber's duty request; subRet records
+	// when each Subscribe call returned its information to the controller
+	subDelay int64
+	subRet   []c14rSubRet
+}
+
+type c14rSubRet struct {
+	epoch phase0.Epoch
+	at    int64
+}
+
+// c14rSlowDuties is the beacon node as the subscriber sees it.
+type c14rSlowDuties struct{ w *c14rWorld }
+
+func (d c14rSlowDuties) AttesterDuties(ctx context.Context, opts *api.AttesterDutiesOpts) (*api.Response[[]*apiv1.AttesterDuty], error) {
+	if d.w.subDelay > 0 {
+		mc.Sleep(d.w.subDelay)
+	}
+	return d.w.c03World.AttesterDuties(ctx, opts)
+}
+
+// c14rSubscriber is the real subscriber; it notes when its answer reaches the controller.
+type c14rSubscriber struct {
+	real *standardsubscriber.Service
+	w    *c14rWorld
+}
+
+func (s *c14rSubscriber) Subscribe(ctx context.Context, epoch phase0.Epoch, accounts map[phase0.ValidatorIndex]e2wtypes.Account) (map[phase0.Slot]map[phase0.CommitteeIndex]*beaconcommitteesubscriber.Subscription, error) {
+	info, err := s.real.Subscribe(ctx, epoch, accounts)
+	if err == nil {
+		s.w.subRet = append(s.w.subRet, c14rSubRet{epoch: epoch, at: mc.Now()})
+	}
+	return info, err
 }
 
 func (w *c14rWorld) Attest(ctx context.Context, duty *attester.Duty) ([]*phase0.Attestation, error) {
@@ -81,8 +116,8 @@ func (w *c14rWorld) AggregatorsAndSignatures(_ context.Context, accounts []e2wty
 	return sigs, sel, nil
 }
 
-func c14rBody(w *c14rWorld, startAt int64, ap [2]string) {
-	*w = c14rWorld{c03World: &c03World{attKinds: ap, propKinds: [2]string{"A", "A"}, startAt: startAt, reorgAt: -1}}
+func c14rBody(w *c14rWorld, startAt int64, ap [2]string, attestDur, subDelay int64) {
+	*w = c14rWorld{c03World: &c03World{attKinds: ap, propKinds: [2]string{"A", "A"}, startAt: startAt, reorgAt: -1, attestDur: attestDur}, subDelay: subDelay}
 	ctx, cancel := mcontext.WithCancel(context.Background())
 	defer cancel()
 	ct := newChainTime(-(int64(c03Epoch0*c03SPE)*int64(c03SlotDur) + startAt), c03SlotDur, c03SPE)
@@ -95,7 +130,7 @@ func c14rBody(w *c14rWorld, startAt int64, ap [2]string) {
 	accts := &accountsTable{byIndex: byIndex}
 	ev := &eventsProvider{}
 	subscriber, err := standardsubscriber.New(ctx, standardsubscriber.WithLogLevel(zerolog.Disabled), standardsubscriber.WithMonitor(&nullmetrics.Service{}),
-		standardsubscriber.WithProcessConcurrency(2), standardsubscriber.WithChainTimeService(ct), standardsubscriber.WithAttesterDutiesProvider(w),
+		standardsubscriber.WithProcessConcurrency(2), standardsubscriber.WithChainTimeService(ct), standardsubscriber.WithAttesterDutiesProvider(c14rSlowDuties{w}),
 		standardsubscriber.WithAttestationAggregator(w), standardsubscriber.WithBeaconCommitteeSubmitter(w))
 	must(err)
 	_, err = standardcontroller.New(ctx,
@@ -105,7 +140,7 @@ func c14rBody(w *c14rWorld, startAt int64, ap [2]string) {
 		standardcontroller.WithSyncCommitteeDutiesProvider(vouchmock.NewSyncCommitteeDutiesProvider()), standardcontroller.WithEventsProvider(ev),
 		standardcontroller.WithValidatingAccountsProvider(accts), standardcontroller.WithProposalsPreparer(mockproposalpreparer.New()),
 		standardcontroller.WithScheduler(sched), standardcontroller.WithAttester(w), standardcontroller.WithBeaconBlockProposer(w),
-		standardcontroller.WithBeaconCommitteeSubscriber(subscriber), standardcontroller.WithAttestationAggregator(w),
+		standardcontroller.WithBeaconCommitteeSubscriber(&c14rSubscriber{real: subscriber, w: w}), standardcontroller.WithAttestationAggregator(w),
 		standardcontroller.WithAccountsRefresher(mockaccountmanager.NewRefresher()),
 		standardcontroller.WithBlockToSlotSetter(mockcache.New(map[phase0.Root]phase0.Slot{}).(cache.BlockRootToSlotSetter)),
 		standardcontroller.WithBeaconBlockHeadersProvider(vouchmock.NewBeaconBlockHeadersProvider()), standardcontroller.WithSignedBeaconBlockProvider(vouchmock.NewSignedBeaconBlockProvider()),
@@ -164,6 +199,11 @@ func c14rCheck(w *c14rWorld, r *mc.Result) mc.Verdict {
 	// every duty the beacon node handed out for a slot that was still in the future must have been subscribed
 	// (at the time of that answer or later, before the slot) ...
 	for i := range w.attF {
+		if w.subDelay > 0 {
+			// the beacon node is slow towards the subscriber: whether a subscription can be made in time is the
+			// environment's doing; only the aggregation clause is judged in these runs
+			break
+		}
 		f := &w.attF[i]
 		fs := w.slotAt(f.at)
 		for _, d := range f.duties {
@@ -214,6 +254,25 @@ func c14rCheck(w *c14rWorld, r *mc.Result) mc.Verdict {
 		if lf == nil || w.slotAt(lf.at) >= c.slot {
 			continue
 		}
+		// aggregation jobs are set up from the subscription information of the epoch, after attesting: the
+		// information must have reached the controller by then (an answer landing on that very instant
+		// leaves both outcomes open)
+		attestEnd := c.at + w.attestDur
+		have, tie := false, false
+		for _, sr := range w.subRet {
+			if sr.epoch == epoch && sr.at < attestEnd {
+				have = true
+			}
+			if sr.epoch == epoch && sr.at == attestEnd {
+				tie = true
+			}
+		}
+		if !have || tie {
+			continue
+		}
+		if attestEnd >= w.slotStart(c.slot+1) {
+			continue // the attestations were only made once the slot was over: nothing is left to aggregate
+		}
 		committees := map[phase0.CommitteeIndex]bool{}
 		for _, val := range c.vals {
 			committees[phase0.CommitteeIndex(val%2)] = true
@@ -222,7 +281,11 @@ func c14rCheck(w *c14rWorld, r *mc.Result) mc.Verdict {
 		for _, a := range w.aggs {
 			if a.slot == c.slot {
 				got[phase0.CommitteeIndex(a.val%2)]++
-				if a.at != w.slotStart(c.slot)+int64(8*time.Second) {
+				wantAt := w.slotStart(c.slot) + int64(8*time.Second)
+				if attestEnd > wantAt {
+					wantAt = attestEnd // the attester took longer than the aggregation delay: the job runs at once
+				}
+				if a.at != wantAt {
 					return fail("aggregation-wrong-time", fmt.Sprintf("aggregation for slot %d ran %+.1fs after the slot start instead of +8.0s", c.slot, float64(a.at-w.slotStart(c.slot))/1e9))
 				}
 			}
@@ -258,12 +321,26 @@ func init() {
 				if tier == "thorough" {
 					u.Bound = 1
 				}
-				u.Body = func() { c14rBody(w, sa, ap) }
+				u.Body = func() { c14rBody(w, sa, ap, 0, 0) }
 				u.Check = func(r *mc.Result) mc.Verdict { return c14rCheck(w, r) }
+				units = append(units, u)
+			}
+			// a slow attester (7 s) and a beacon node that takes its time over the subscriber's duty request: the
+			// subscription information reaches the controller before, while or after a slot's attestations are made
+			for _, sd := range []int64{10, 20, 40} {
+				sa, sd := sa, sd
+				w := &c14rWorld{}
+				u := hx.Unit{Name: fmt.Sprintf("C14/reorg/start%d/slow-attester/subscription+%ds", si, sd), Cfg: mc.Config{Deviation: true, Horizon: int64(40 * c03SlotDur)}, Bound: 0}
+				u.Body = func() { c14rBody(w, sa, [2]string{"E", "E"}, int64(7*time.Second), sd*int64(time.Second)) }
+				u.Check = func(r *mc.Result) mc.Verdict {
+					v := c14rCheck(w, r)
+					v.Nontrivial = true
+					return v
+				}
 				units = append(units, u)
 			}
 		}
 		return units
 	}
-	p.Rule += "; (reorg) the real controller + scheduler + subscriber run for three epochs with a head event announcing changed dependent roots in one of the next five slots (1 s or 6 s into the slot, previous or current root) and duty tables that move, drop or add duties: every duty handed out for a future slot is subscribed, and every attestation is followed by one aggregation per committee (all validators selected) at slot start + aggregation delay"
+	p.Rule += "; (reorg) the real controller + scheduler + subscriber run for three epochs with a head event announcing changed dependent roots in one of the next five slots (1 s or 6 s into the slot, previous or current root) and duty tables that move, drop or add duties: every duty handed out for a future slot is subscribed, and every attestation is followed by one aggregation per committee (all validators selected) at slot start + aggregation delay; the same with an attester that takes 7 s and a beacon node that takes 10 / 20 / 40 s over the subscriber's duty request: an aggregation is owed whenever the subscription information reached the controller before the attestations were made"
 }
